@@ -294,7 +294,7 @@ fn gen(thorough: bool) -> impl Fn(&mut EnumCtx) + Sync {
             }
         }
         // three segments in every order
-        let sh3 = if thorough { shapes.clone() } else { boundary_shapes(12) };
+        let sh3 = shapes.clone();
         for s0 in SLOTS {
             for s1 in SLOTS {
                 for s2 in SLOTS {
@@ -305,6 +305,31 @@ fn gen(thorough: bool) -> impl Fn(&mut EnumCtx) + Sync {
                         for b in &sh3 {
                             for c in &sh3 {
                                 run(e, vec![(s0, *a, 5), (s1, *b, 4), (s2, *c, 6)], true);
+                            }
+                        }
+                    }
+                }
+            }
+        }
+        // four segments in every order over the boundary shapes (thorough)
+        if thorough {
+            let sh4 = boundary_shapes(12);
+            for s0 in SLOTS {
+                for s1 in SLOTS {
+                    for s2 in SLOTS {
+                        for s3 in SLOTS {
+                            let all = [s0, s1, s2, s3];
+                            if (0..4).any(|i| (i + 1..4).any(|j| all[i] == all[j])) {
+                                continue;
+                            }
+                            for a in &sh4 {
+                                for b in &sh4 {
+                                    for c in &sh4 {
+                                        for d in &sh4 {
+                                            run(e, vec![(s0, *a, 5), (s1, *b, 4), (s2, *c, 6), (s3, *d, 7)], true);
+                                        }
+                                    }
+                                }
                             }
                         }
                     }
@@ -330,7 +355,7 @@ pub fn run(tier: Tier) -> i32 {
         return crate::common::finish_replay("C15", &art, &|ws| confirm_enum(&o, &g, ws));
     }
     let out = run_enum(&o, &g);
-    enum_evidence(&mut run, &out, "one case = a generated ET_EXEC file: 1-3 PT_LOAD segments in every program-header order over page slots {0x400000, 0x401000, 0x403000, 0x10000000}, in-page offset {0, 0x10, 0xE10} (p_offset congruent), filesz {0, 1, 0x1F0, to page end, 0x1000, 0x2000}, bss tail {0, 1, to page end, 0x1800}, all 8 flag masks (single segment), optional PT_PHDR/PT_NOTE/PT_GNU_STACK, 6 symbol-table variants, entry at segment start or middle; only combinations whose segments occupy distinct pages; oracle = the writer's own parameters; states = distinct files; distinct_nontrivial = distinct (file, number of violated clauses)");
+    enum_evidence(&mut run, &out, "one case = a generated ET_EXEC file: 1-3 (thorough: 4 over the boundary shapes) PT_LOAD segments in every program-header order over page slots {0x400000, 0x401000, 0x403000, 0x10000000}, in-page offset {0, 0x10, 0xE10} (p_offset congruent), filesz {0, 1, 0x1F0, to page end, 0x1000, 0x2000}, bss tail {0, 1, to page end, 0x1800}, all 8 flag masks (single segment), optional PT_PHDR/PT_NOTE/PT_GNU_STACK, 6 symbol-table variants, entry at segment start or middle; only combinations whose segments occupy distinct pages; oracle = the writer's own parameters; states = distinct files; distinct_nontrivial = distinct (file, number of violated clauses)");
     run.guard("cases", out.cases >= 50_000 || out.capped, format!("{} files", out.cases));
     run.assume("ET_EXEC with p_vaddr != 0; executable stacks, TLS and dynamic segments are outside 'static well-formed' and exercised by C16");
     let code = run.finish_batch(&|ws| confirm_enum(&o, &g, ws));
